@@ -41,6 +41,7 @@ float arithmetic on it starts to raise); float vs numpy.float64 with equal bits 
 """
 import os
 import copy
+import operator
 import struct
 import hashlib
 from decimal import Decimal
@@ -94,6 +95,9 @@ POOLS = {
                           units=["m", "cm", "cm2"]),
     "array":         dict(objs=[("a", [1.0, 2.0, 3.0], "m", None, None), ("a", [10.0, 20.0, 30.0], "cm", None, None)],
                           units=["m", "cm", "cm2"]),
+    # arrays mixing zero and non-zero elements (comparisons treat zeros specially)
+    "array_zeros":   dict(objs=[("a", [0.0, 2.0, 3.0], "m", None, None), ("a", [10.0, 0.0, 30.0], "cm", None, None)],
+                          units=["m", "cm", "cm2"]),
     "array_scalar":  dict(objs=[("a", [1.0, 2.0, 3.0], "m", None, None), ("f", 50.0, "cm", None, None)],
                           units=["m", "cm", "cm2"]),
     "uncertainty":   dict(objs=[("f", 1.0, "m", 0.1, None), ("f", 30.0, "cm", None, 10.0)], units=["m", "cm", "cm2"]),
@@ -122,7 +126,7 @@ FEATURES = {
     "log_fraction": ["logarithmic", "fraction-form"], "log_fraction_mixed": ["logarithmic", "fraction-form", "different-unit"], "angle": ["angle", "different-unit"],
     "percent": ["dimensionless-unit"], "plain": ["no-unit"], "decimal_left": ["decimal", "different-unit"],
     "decimal_right": ["decimal", "different-unit"], "decimal_both": ["decimal", "different-unit"],
-    "array": ["array", "different-unit"], "array_scalar": ["array", "different-unit"],
+    "array": ["array", "different-unit"], "array_zeros": ["array", "zero-elements", "different-unit"], "array_scalar": ["array", "different-unit"],
     "uncertainty": ["uncertainty", "different-unit"],
     "array_uncertainty": ["array", "uncertainty", "different-unit"],
     "array_uncertainty_both": ["array", "uncertainty", "different-unit"],
@@ -136,6 +140,10 @@ BIN = {
     "add": lambda a, b: a + b, "sub": lambda a, b: a - b, "mul": lambda a, b: a * b, "div": lambda a, b: a / b,
     "eq": lambda a, b: a == b, "ne": lambda a, b: a != b,
     "linspace": lambda a, b: np.linspace(a, b, 3), "logspace": lambda a, b: np.logspace(a, b, 3),
+    # augmented assignment x = a; x op= b : the name x is rebound to the result, the pool keeps the old object a as an
+    # alias, which must be unchanged
+    # (a -= b and a /= b with a Quantity on the right are left to the plain-number forms below: quick-tier budget)
+    "iadd": operator.iadd, "imul": operator.imul,
 }
 UNA = {
     "mul_num": lambda a: a * 2, "rmul_num": lambda a: 2 * a, "div_num": lambda a: a / 2, "rdiv_num": lambda a: 2 / a,
@@ -146,6 +154,9 @@ UNA = {
     "eq_num": lambda a: a == 2, "pow2": lambda a: a ** 2, "pow1": lambda a: a ** 1, "pow_half": lambda a: a ** (1, 2), "neg": lambda a: -a,
     "linspace_num": lambda a: np.linspace(a, 2, 3), "rlinspace_num": lambda a: np.linspace(2, a, 3),
     "index": lambda a: a[0],
+    "imul_num": lambda a: operator.imul(a, 2), "idiv_num": lambda a: operator.itruediv(a, 2),
+    "iadd_num": lambda a: operator.iadd(a, 2), "isub_num": lambda a: operator.isub(a, 2),
+    "ipow_num": lambda a: operator.ipow(a, 2),
     "np.sqrt": np.sqrt, "np.cbrt": np.cbrt, "np.power": lambda a: np.power(a, 2),
     "np.sin": np.sin, "np.cos": np.cos, "np.tan": np.tan,
     "np.arcsin": np.arcsin, "np.arccos": np.arccos, "np.arctan": np.arctan,
@@ -320,6 +331,50 @@ def _classify(before, after):
     return "uncertainty-changed"
 
 
+_LAST = [None]          # outcome of the most recent operation executed by run_history (used by the differential check)
+
+
+def _result(o):
+    from scinumtools.units import Quantity
+    if o[0] != "ok":
+        return ("err", o[1])
+    if isinstance(o[1], Quantity):
+        return ("quantity",) + observe(o[1])
+    return _num(o[1])
+
+
+def diff3_ops(pname):
+    """(P, S) pairs: P a pure operation that converts / combines the initial operands, S an in-place method on one of
+    the initial operands"""
+    n0 = len(POOLS[pname]["objs"])
+    units = POOLS[pname]["units"]
+    P = [["value", i, u] for i in range(n0) for u in units]
+    P += [["bin", name, i, j] for name in ("add", "sub", "mul", "div", "eq") for i in range(n0) for j in range(n0)]
+    S = []
+    for k in range(n0):
+        S += [["abse", k, 0.25], ["rele", k, 10.0], ["rebase", k]] + [["to", k, u] for u in units]
+    return [(p, s_) for p in P for s_ in S]
+
+
+def check_diff3(pname, P, S):
+    """history P, S, P: the second P must give what P gives on fresh operands after S alone (P is pure, so the operands
+    are in the same condition in both histories)"""
+    pool, rec, last, _ = run_history(pname, [P, S, P])
+    if rec is not None:
+        return rec, 3                      # an ordinary violation on the way is reported as such
+    got = _result(_LAST[0])
+    pool2, rec2, last2, _ = run_history(pname, [S, P])
+    if rec2 is not None:
+        return rec2, 5
+    want = _result(_LAST[0])
+    if got != want:
+        return failure("repeated-op-differs-from-fresh", dict(pool=pname, mode="diff3", history=[list(P), list(S), list(P)]),
+                       repr(want), repr(got),
+                       tags=["op=" + opname(P), "inplace=" + opname(S), "pool=" + pname] + FEATURES[pname],
+                       behaviour="stale-result-after-inplace-change"), 5
+    return None, 5
+
+
 def run_history(pname, hist):
     """Execute hist on a fresh pool, checking every step.
     Returns (pool, failure-or-None, last outcome kind 'ok'/'err', index of the violating step or None)."""
@@ -333,6 +388,7 @@ def run_history(pname, hist):
         fps = [fingerprint(q) for q in pool]
         o = apply(pname, pool, op)
         last = o[0]
+        _LAST[0] = o
         inplace = op[0] in INPLACE
         target = op[1] if inplace else None
         args = [] if inplace else ([op[2], op[3]] if op[0] == "bin" else [op[2]] if op[0] == "una" else [op[1]])
@@ -441,8 +497,9 @@ def plan(tier, seed):
         nops = len(alphabet(pname, len(p["objs"])))
         for k in range(nops):
             shards.append((pname, k, tier))
+    shards += [(pname, "diff3", tier) for pname in POOLS]
     # interleave pools so that the expensive ones are spread over the run
-    shards.sort(key=lambda s: (s[1], s[0]))
+    shards.sort(key=lambda s: (-1 if s[1] == "diff3" else s[1], s[0]))
     return shards
 
 
@@ -466,6 +523,19 @@ def run_shard(desc):
     pname, k, tier = desc
     sh = Shard(PROPERTY)
     n0 = len(POOLS[pname]["objs"])
+    if k == "diff3":
+        for P, S in diff3_ops(pname):
+            rec, nsteps = check_diff3(pname, P, S)
+            sh.evaluations += 2
+            sh.transitions += nsteps
+            sh.traces += 2
+            sh.nontrivial += 1
+            sh.max_depth = max(sh.max_depth, 3)
+            sh.count("diff3:" + ("fail" if rec else "ok"))
+            if rec is not None:
+                sh.fail(rec)
+        isolation.tables_restore()
+        return sh
     init_pool = [make(s) for s in POOLS[pname]["objs"]]
     s0 = canon(pname, init_pool)
     seen = {s0}
@@ -523,6 +593,10 @@ def run_shard(desc):
 def replay(rec):
     isolation.tables_restore()
     c = rec["case"]
+    if c.get("mode") == "diff3":
+        bad, _ = check_diff3(c["pool"], list(c["history"][0]), list(c["history"][1]))
+        isolation.tables_restore()
+        return bad
     _, bad, _, _ = run_history(c["pool"], [list(h) for h in c["history"]])
     isolation.tables_restore()
     return bad
@@ -557,7 +631,7 @@ def finish(total, tier, seed):
 
 
 MANIFEST = dict(
-    text="Explicit-state exploration on live Quantity objects: from 23 operand pools (same unit, different unit, "
+    text="Explicit-state exploration on live Quantity objects: from 24 operand pools (same unit, different unit, "
          "compound, dB, dBm, dBmW/Hz and dBm/Hz + BW/Hz fraction forms, angle, percent, plain numbers, Decimal left/right/both, arrays, array+scalar, uncertainties, "
          "arrays with per-element uncertainties (exact / uncertain partner), unit expressions repeating a dimension "
          "(m*cm, km*m, cm*m*dm; scalar, array, with uncertainty) so that rebase() does real work, "
@@ -565,7 +639,7 @@ MANIFEST = dict(
          "and comparisons incl. linspace/logspace on every ordered pair, 32 unary forms incl. reflected arithmetic with "
          "plain numbers, powers, indexing and 16 NumPy functions, value queries in 3 units, and the in-place methods "
          "to/rebase/abse/rele on every object, operands and results alike) is executed on freshly built operands "
-         "(3.9e5 histories, 9.1e4 distinct states); the thorough tier adds a third step from every distinct state "
+         "(about 6e5 histories, 9.5e4 distinct states); the thorough tier adds a third step from every distinct state "
          "(in-place methods and value queries on every object, == and + on all ordered pairs; about 8e6 more histories). "
          "After every step all objects that are not the target of an in-place method must report bit-identical value, "
          "units and uncertainty, and - whenever any attribute of its Magnitude/BaseUnits changed - the same recomputed "
